@@ -8,12 +8,12 @@
 (* eigenvalue (incl. rank-deficient and repeated-top cases).                   *)
 EXTENDS Rat, Sequences, TLC
 
-CONSTANTS Cases,     \* set of <<matrix (seq of rows), lambda_max>>
+CONSTANTS Cases,     \* set of <<matrix (seq of rows), lambda_max, cap>>  (cap: updates whose exact ratios still fit TLC's 32-bit integers)
           Starts(_), \* integer start vectors per dimension: Starts(n)
           MaxUpdates
 
-VARIABLES A, lmax, v0, u, k, est2, prev2
-vars == <<A, lmax, v0, u, k, est2, prev2>>
+VARIABLES A, lmax, cap, v0, u, k, est2, prev2
+vars == <<A, lmax, cap, v0, u, k, est2, prev2>>
 
 RECURSIVE ISum(_, _)
 ISumB(f, n) == IF n = 0 THEN 0 ELSE f[n] + ISum(f, n - 1)
@@ -22,18 +22,18 @@ MV(M, v) == TLCEval([i \in 1..Len(M) |-> ISum(TLCEval([j \in 1..Len(v) |-> M[i][
 N2(v) == ISum(TLCEval([i \in 1..Len(v) |-> v[i] * v[i]]), Len(v))
 
 Init ==
-  /\ \E c \in Cases : A = c[1] /\ lmax = c[2]
+  /\ \E c \in Cases : A = c[1] /\ lmax = c[2] /\ cap = c[3]
   /\ v0 \in Starts(Len(A)) /\ N2(v0) > 0
   /\ u = v0 /\ k = 0 /\ est2 = RInt(0) /\ prev2 = RInt(0)
 \* one update: y = A x ; max_eig = ||y|| ; x <- y / max_eig
 Update ==
-  /\ k < MaxUpdates /\ N2(MV(A, u)) > 0
+  /\ k < MaxUpdates /\ k < cap /\ N2(MV(A, u)) > 0
   /\ u' = MV(A, u)
   /\ prev2' = est2
   /\ est2' = IF k = 0 THEN R(N2(MV(A, u)), 1)              \* the first estimate uses the caller's un-normalised vector
              ELSE R(N2(MV(A, u)), N2(u))
   /\ k' = k + 1
-  /\ UNCHANGED <<A, lmax, v0>>
+  /\ UNCHANGED <<A, lmax, cap, v0>>
 Next == Update
 Spec == Init /\ [][Next]_vars
 
